@@ -27,11 +27,27 @@ class Unsupported(Exception):
 
 
 _BIN = {'/\\': '/\\', '\\/': '\\/', '=>': '=>', '<=>': '<=>', '^': '^'}
+_CMP = ('=', '!=', '#', '/=', '<', '<=', '=<', '>', '>=')
+_ARITH = ('+', '-', '*', '/', '%')
+
+
+def atom_key(t):
+    """Canonical text of an arithmetic comparison / term (parse tree)."""
+    if hasattr(t, 'operator'):
+        op, xs = t.operator, t.operands
+        if len(xs) == 2 and op in _CMP + _ARITH:
+            return f'({atom_key(xs[0])} {op} {atom_key(xs[1])})'
+        raise Unsupported(f'operator {op!r} inside a comparison')
+    if t.type in ('var', 'num'):
+        return t.value
+    raise Unsupported(f'terminal {t.value!r} inside a comparison')
+
 
 
 def from_tree(t):
     """omega.logic.ast tree -> action-formula tuple
-    ('v', x) ('c', b) ('~', f) ("'", f) (binop, f, g) ('ite', c, a, b)
+    ('v', x) ('a', key) ('c', b) ('~', f) ("'", f) (binop, f, g)
+    ('ite', c, a, b)
     ('[]', f) ('<>', f) ('U', f, g)."""
     if hasattr(t, 'operator'):
         op, xs = t.operator, t.operands
@@ -41,6 +57,8 @@ def from_tree(t):
             return ('~', from_tree(xs[0]))
         if op in _BIN and len(xs) == 2:
             return (op, from_tree(xs[0]), from_tree(xs[1]))
+        if op in _CMP and len(xs) == 2:
+            return ('a', atom_key(t))
         if op == 'ite' and len(xs) == 3:
             return ('ite',) + tuple(from_tree(x) for x in xs)
         if op in ('[]', '<>') and len(xs) == 1:
@@ -85,7 +103,7 @@ def support(t, primed=False, acc=None):
     if acc is None:
         acc = set()
     k = t[0]
-    if k == 'v':
+    if k in ('v', 'a'):
         acc.add((t[1], primed))
     elif k == 'c':
         pass
@@ -100,7 +118,7 @@ def support(t, primed=False, acc=None):
 def temporal_free(t):
     if t[0] in ('[]', '<>', 'U'):
         return False
-    if t[0] in ('v', 'c'):
+    if t[0] in ('v', 'a', 'c'):
         return True
     return all(temporal_free(x) for x in t[1:])
 
@@ -110,7 +128,7 @@ def compile_action(t, index):
     `index[name]`.  A primed subformula is read in nxt."""
     def go(t, primed):
         k = t[0]
-        if k == 'v':
+        if k in ('v', 'a'):
             return f'{"n" if primed else "c"}[{index[t[1]]}]'
         if k == 'c':
             return 'True' if t[1] else 'False'
@@ -144,7 +162,7 @@ def sem(f, tr, i, memo=None):
         if key in memo:
             return memo[key]
     k = f[0]
-    if k == 'v':
+    if k in ('v', 'a'):
         r = tr[i][f[1]]
     elif k == 'c':
         r = f[1]
@@ -208,6 +226,7 @@ class Problem:
         self.formula = compile_action(out['formula'], self.index)
         self.nu = nu
         self.step_cache = {}
+        self.step_cache_all = {}
         self.init_cache = {}
 
     def _layer(self, cs, primed):
@@ -228,12 +247,13 @@ class Problem:
         return layers
 
     def _search(self, layers, fixed_cur, user_unknown, limit=2):
+        # limit=None: all solutions
         """All assignments of the unknown aux vector (list of tuples)."""
         k = len(self.aux)
         sols = []
 
         def rec(j, partial):
-            if len(sols) >= limit:
+            if limit is not None and len(sols) >= limit:
                 return
             # evaluate the conjuncts that became ready
             vec = user_unknown + tuple(partial) + (False,) * (k - j)
@@ -344,3 +364,227 @@ def solve_one(prob, f, trace_dicts):
         got.append(prob.formula(st, st))
         want.append(sem(f, trace_dicts, i))
     return sol, got, want
+
+
+# =========================================================================
+# until=True: infinite sequences u v^omega (ultimately periodic)
+# =========================================================================
+class UP:
+    """Ultimately periodic Boolean sequence: pre ++ loop^omega (exact)."""
+
+    def __init__(self, pre, loop):
+        assert loop
+        self.pre, self.loop = list(pre), list(loop)
+
+    def at(self, t):
+        if t < len(self.pre):
+            return self.pre[t]
+        return self.loop[(t - len(self.pre)) % len(self.loop)]
+
+    def shape(self, npre, nper):
+        """Same sequence with prefix length npre >= len(pre) and period nper
+        (a multiple of the period)."""
+        assert npre >= len(self.pre) and nper % len(self.loop) == 0
+        return UP([self.at(t) for t in range(npre)],
+                  [self.at(npre + t) for t in range(nper)])
+
+
+def _lcm(a, b):
+    import math
+    return a * b // math.gcd(a, b)
+
+
+def _align(*xs):
+    npre = max(len(x.pre) for x in xs)
+    nper = 1
+    for x in xs:
+        nper = _lcm(nper, len(x.loop))
+    return [x.shape(npre, nper) for x in xs]
+
+
+def _pointwise(g, *xs):
+    ys = _align(*xs)
+    return UP([g(*(y.pre[t] for y in ys)) for t in range(len(ys[0].pre))],
+              [g(*(y.loop[t] for y in ys)) for t in range(len(ys[0].loop))])
+
+
+def _run(step, first, x):
+    """s(0) = first(x(0)), s(t+1) = step(x(t+1), s(t)) for a step function
+    monotone in s: the values on the second pass through the loop repeat
+    for ever (a monotone map on {0,1} is idempotent)."""
+    n, m = len(x.pre), len(x.loop)
+    vals = []
+    for t in range(n + 2 * m):
+        vals.append(first(x.at(t)) if t == 0 else step(x.at(t), vals[-1]))
+    # exactness check of the claim above: a third pass gives the same values
+    third = []
+    s = vals[-1]
+    for t in range(n + 2 * m, n + 3 * m):
+        s = step(x.at(t), s)
+        third.append(s)
+    assert third == vals[n + m:], 'not stabilised'
+    return UP(vals[:n + m], vals[n + m:])
+
+
+def sem_up(f, word_u, word_v):
+    """Exact semantics of a past/future LTL formula on u v^omega, as an
+    ultimately periodic Boolean sequence.  word_u, word_v: lists of dicts."""
+    k = f[0]
+    if k in ('v', 'a'):
+        return UP([d[f[1]] for d in word_u], [d[f[1]] for d in word_v])
+    if k == 'c':
+        return UP([], [f[1]])
+    if k == '~':
+        return _pointwise(lambda a: not a, sem_up(f[1], word_u, word_v))
+    if k == 'ite':
+        return _pointwise(lambda c, a, b: a if c else b,
+                          *(sem_up(x, word_u, word_v) for x in f[1:]))
+    if k in ('-X', '--X'):
+        x = sem_up(f[1], word_u, word_v)
+        # s'(0) = weak ? true : false, s'(t+1) = s(t)
+        return UP([k == '-X'] + x.pre, x.loop)
+    if k == '-[]':
+        x = sem_up(f[1], word_u, word_v)
+        return _run(lambda a, s: a and s, lambda a: a, x)
+    if k == '-<>':
+        x = sem_up(f[1], word_u, word_v)
+        return _run(lambda a, s: a or s, lambda a: a, x)
+    if k == 'S':
+        a, b = _align(sem_up(f[1], word_u, word_v), sem_up(f[2], word_u, word_v))
+        pair = UP(list(zip(a.pre, b.pre)), list(zip(a.loop, b.loop)))
+        return _run(lambda ab, s: ab[1] or (ab[0] and s), lambda ab: ab[1], pair)
+    if k in ('[]', '<>', 'U'):
+        if k == 'U':
+            a, b = _align(sem_up(f[1], word_u, word_v),
+                          sem_up(f[2], word_u, word_v))
+        else:
+            b = sem_up(f[1], word_u, word_v)
+            a = UP(b.pre, b.loop)
+        n, m = len(b.pre), len(b.loop)
+        N = n + m
+        succ = lambda t: t + 1 if t + 1 < N else n
+        A = a.pre + a.loop
+        B = b.pre + b.loop
+        if k == '[]':
+            # greatest fixpoint of  s(t) = B(t) and s(succ t)
+            s = [True] * N
+            for _ in range(N + 1):
+                s = [B[t] and s[succ(t)] for t in range(N)]
+        else:
+            if k == '<>':
+                A = [True] * N
+            # least fixpoint of  s(t) = B(t) or (A(t) and s(succ t))
+            s = [False] * N
+            for _ in range(N + 1):
+                s = [B[t] or (A[t] and s[succ(t)]) for t in range(N)]
+        return UP(s[:n], s[n:])
+    a, b = sem_up(f[1], word_u, word_v), sem_up(f[2], word_u, word_v)
+    g = {'/\\': lambda x, y: x and y, '\\/': lambda x, y: x or y,
+         '=>': lambda x, y: (not x) or y, '<=>': lambda x, y: x == y,
+         '^': lambda x, y: x != y}[k]
+    return _pointwise(g, a, b)
+
+
+def lasso_check(prob, f, word_u, word_v):
+    """Fair solutions of the real testers on u v^omega: exactly one?  and is
+    the translated formula equivalent to f at every position under it?
+    Returns None or a failure dict.  prob.out['win'] are the recurrence
+    goals.  Exhaustive search in the product of the lasso with the
+    auxiliary valuations."""
+    word = list(word_u) + list(word_v)
+    N, n0 = len(word), len(word_u)
+    us = [tuple(d[v] for v in prob.uservars) for d in word]
+    succ = lambda i: i + 1 if i + 1 < N else n0
+    wins = [compile_action(w, prob.index) for w in prob.out['win']]
+    init = [(0, a) for a in prob._search(prob.init_c, None, us[0], limit=None)]
+    edges = {}
+    stack = list(init)
+    while stack:
+        node = stack.pop()
+        if node in edges:
+            continue
+        i, a = node
+        j = succ(i)
+        key = (us[i] + a, us[j])
+        if key not in prob.step_cache_all:
+            prob.step_cache_all[key] = prob._search(
+                prob.trans_c, us[i] + a, us[j], limit=None)
+        edges[node] = [(j, b) for b in prob.step_cache_all[key]]
+        stack.extend(edges[node])
+    nodes = list(edges)
+    # strongly connected components (Tarjan, iterative enough for <= 10^3)
+    import sys
+    sys.setrecursionlimit(10000)
+    index, low, onst, st, comp = {}, {}, set(), [], {}
+    counter = [0]
+
+    def strong(v):
+        index[v] = low[v] = counter[0]
+        counter[0] += 1
+        st.append(v)
+        onst.add(v)
+        for w in edges[v]:
+            if w not in index:
+                strong(w)
+                low[v] = min(low[v], low[w])
+            elif w in onst:
+                low[v] = min(low[v], index[w])
+        if low[v] == index[v]:
+            c = []
+            while True:
+                w = st.pop()
+                onst.discard(w)
+                comp[w] = v
+                c.append(w)
+                if w == v:
+                    break
+    for v in nodes:
+        if v not in index:
+            strong(v)
+    members = {}
+    for v, c in comp.items():
+        members.setdefault(c, []).append(v)
+    fair_scc = set()
+    for c, vs in members.items():
+        nontrivial = len(vs) > 1 or vs[0] in edges[vs[0]]
+        if not nontrivial:
+            continue
+        states = [us[i] + a for (i, a) in vs]
+        if all(any(w(s, s) for s in states) for w in wins):
+            fair_scc.add(c)
+    # nodes that can reach a fair component
+    fair = {v for v in nodes if comp[v] in fair_scc}
+    changed = True
+    while changed:
+        changed = False
+        for v in nodes:
+            if v not in fair and any(w in fair for w in edges[v]):
+                fair.add(v)
+                changed = True
+    start = [v for v in init if v in fair]
+    desc = dict(u=word_u, v=word_v)
+    if len(start) != 1:
+        return dict(kind='no-fair-solution' if not start
+                    else 'several-fair-solutions', position=0,
+                    candidates=[list(a) for (_, a) in start], **desc)
+    path, seen = [], {}
+    v = start[0]
+    while v not in seen:
+        seen[v] = len(path)
+        path.append(v)
+        nxt = [w for w in edges[v] if w in fair]
+        if len(nxt) != 1:
+            return dict(kind='several-fair-solutions', position=len(path),
+                        candidates=[list(a) for (_, a) in nxt], **desc)
+        v = nxt[0]
+    pre = seen[v]
+    got = [prob.formula(us[i] + a, us[i] + a) for (i, a) in path]
+    got = UP(got[:pre], got[pre:])
+    want = sem_up(f, word_u, word_v)
+    g, w = _align(got, want)
+    for t in range(len(g.pre) + len(g.loop)):
+        if g.at(t) != w.at(t):
+            return dict(kind='wrong-truth-value', position=t,
+                        expected=w.at(t), got=g.at(t),
+                        solution=[list(a) for (_, a) in path], **desc)
+    return None
